@@ -8,12 +8,15 @@ export CARGO_NET_OFFLINE=true
 LOG=$WT/DELIVER/confirm_$K.log; : > $LOG
 git checkout -q -- src; rm -f tests/demo_*.rs
 FEAT="serde,base64"
+TC=""
+if [ -f DELIVER/demo_$K.rs ] && grep -q 'feature = "nightly"\|simd_backend' DELIVER/demo_$K.rs DELIVER/meta_$K.txt 2>/dev/null; then TC="+nightly"; FEAT="nightly,serde,base64"; fi
+if grep -q 'simd_backend' DELIVER/meta_$K.txt 2>/dev/null; then FEAT="nightly,simd_backend,serde,base64"; fi
 git apply DELIVER/patch_$K.diff >> $LOG 2>&1 || { echo "$ID/$K: PATCH-DOES-NOT-APPLY"; exit 1; }
 cargo test --offline >> $LOG 2>&1; S1=$?
-cargo test --offline --features $FEAT >> $LOG 2>&1; S2=$?
+cargo $TC test --offline --features $FEAT >> $LOG 2>&1; S2=$?
 cp DELIVER/demo_$K.rs tests/demo_${ID}_$K.rs
-cargo test --offline --features $FEAT --test demo_${ID}_$K >> $LOG 2>&1; D1=$?
+cargo $TC test --offline --features $FEAT --test demo_${ID}_$K >> $LOG 2>&1; D1=$?
 git checkout -q -- src
-cargo test --offline --features $FEAT --test demo_${ID}_$K >> $LOG 2>&1; D2=$?
+cargo $TC test --offline --features $FEAT --test demo_${ID}_$K >> $LOG 2>&1; D2=$?
 rm -f tests/demo_${ID}_$K.rs
 if [ $S1 -eq 0 ] && [ $S2 -eq 0 ] && [ $D1 -ne 0 ] && [ $D2 -eq 0 ]; then echo "$ID/$K: CONFIRMED (suite passes with change; demo fails with, passes without)"; else echo "$ID/$K: NOT-CONFIRMED suite=$S1/$S2 demo_with=$D1 demo_without=$D2"; fi
